@@ -103,12 +103,31 @@ func (x *exec) runnable() []int32 {
 		if g.done[i] || g.ext[i] {
 			continue
 		}
-		if p := g.pend[i]; p != nil && !x.sim.locks.canAcquire(*p, int32(i)) {
-			continue
+		if p := g.pend[i]; p != nil {
+			if !x.sim.locks.canAcquire(*p, int32(i)) {
+				continue
+			}
+			// Go's RWMutex: once some goroutine has called Lock, later RLock calls
+			// wait until that writer has come and gone (even while readers still
+			// hold the lock). A reader is only resumed into its real RLock when no
+			// other task has announced a Lock on the same mutex.
+			if !p.write && x.writerPending(p.lock, i) {
+				continue
+			}
 		}
 		out = append(out, int32(i))
 	}
 	return out
+}
+
+func (x *exec) writerPending(lock, except int) bool {
+	g := x.sim.g
+	for j, q := range g.pend {
+		if j != except && q != nil && q.write && q.lock == lock && !g.done[j] {
+			return true
+		}
+	}
+	return false
 }
 
 func has(l []int32, v int32) bool {
@@ -302,6 +321,9 @@ func (x *exec) schedule() {
 	checkState := x.s.Prop == "C16" && !raceEnabled
 	for g.live > 0 {
 		run := x.runnable()
+		if len(run) == 0 && x.awaitExternallyBlocked() {
+			continue // a task that was blocked outside the simulator came back
+		}
 		if len(run) == 0 {
 			var w []string
 			for i, p := range g.pend {
@@ -405,6 +427,63 @@ func (x *exec) recv(t *task) (m ymsg, ok bool) {
 }
 
 func (x *exec) recv2(t *task) (ymsg, bool) { return x.recv(t) }
+
+// awaitExternallyBlocked is called when no task is runnable. If some tasks
+// are blocked outside the simulator, one of them may just have been woken by
+// the task that ran last and be on its way to its next yield point: wait for
+// its message. Only when every such task is still seen waiting on its
+// synchronisation object in three looks 20 ms apart is the verdict deadlock.
+func (x *exec) awaitExternallyBlocked() bool {
+	s := x.sim
+	g := s.g
+	any := false
+	for i, e := range g.ext {
+		if e && !g.done[i] {
+			any = true
+		}
+	}
+	if !any {
+		return false
+	}
+	stillBlocked := 0
+	for i := 0; i < 400; i++ {
+		var m ymsg
+		got := false
+		raceDisable()
+		select {
+		case m = <-s.toSched:
+			got = true
+		default:
+		}
+		raceEnable()
+		if got {
+			if m.kind == evExtBlock {
+				continue // stale watchdog note
+			}
+			x.handle(m)
+			g.ext[m.task] = false
+			return true
+		}
+		time.Sleep(time.Millisecond)
+		if i%20 == 19 {
+			all := true
+			for t, e := range g.ext {
+				if e && !g.done[t] && !blockedOutsideSimulator(s.tasks[t].goid.Load()) {
+					all = false
+				}
+			}
+			if all {
+				stillBlocked++
+				if stillBlocked >= 3 {
+					return false
+				}
+			} else {
+				stillBlocked = 0
+			}
+		}
+	}
+	return false
+}
 
 // watchdog runs for the duration of one mode G run.
 func (x *exec) watchdog(stop chan struct{}) {
